@@ -404,7 +404,19 @@ func (x *vc) markLocal(fr *frame, st *state, instr ssa.Instruction) {
 // own: arrays the havocked region itself stores into (loop bodies), with the references when they are known.
 func (x *vc) preserveLocals(old, cur map[string]string, own map[string][]string) {
 	if !x.hasLocal {
-		return
+		// objects of earlier iterations may be known to be local through an invariant before any site was executed
+		any := false
+		if x.escInfo != nil {
+			for _, s := range x.escInfo.sites {
+				if !x.escInfo.esc[s] {
+					any = true
+				}
+			}
+		}
+		if !any {
+			return
+		}
+		x.needLocalobj()
 	}
 	for k, o := range old {
 		n := cur[k]
